@@ -12,9 +12,10 @@ from . import core
 
 
 def body(prop: str, args) -> int:
-    core.build_lean()
     chk = core.Check(prop, args.tier, args.seed)
-    chk.audit_info = core.audit(prop)
+    if not core.SWEEP:
+        core.build_lean()
+        chk.audit_info = core.audit(prop)
     mod = importlib.import_module(f"harness.props.{prop.lower()}")
     drv = core.Driver()
     try:
@@ -22,6 +23,8 @@ def body(prop: str, args) -> int:
             mod.replay(chk, drv, args.replay)
         else:
             mod.run(chk, drv)
+    except core.FirstViolation:
+        pass
     finally:
         drv.close()
     return chk.finish()
@@ -38,8 +41,8 @@ def main() -> int:
     # the check body runs in a child process: real kernels are executed in-process by several checks, and
     # a crash of the interpreter (segfault in a generated kernel, double free, ...) must become a reported
     # violation, not the silent death of the check
-    mark = core.VERIF / "replays" / f".mark_{prop}_{os.getpid()}.json"
-    mark.parent.mkdir(exist_ok=True)
+    mark = core.OUT / "replays" / f".mark_{prop}_{os.getpid()}.json"
+    mark.parent.mkdir(parents=True, exist_ok=True)
     os.environ["VERIF_MARK_FILE"] = str(mark)
     sys.stdout.flush()
     pid = os.fork()
